@@ -76,7 +76,7 @@ pub fn project<V>(
                             json!({"n": id(n.addr), "k": n.key.id, "tag": n.key.tag,
                                    "hok": (n.hash == h.hash_of(n.key.id)) as u8,
                                    "hb": h.hash_of(n.key.id) & mask,
-                                   "hlo": n.hash & 0xfffff, "hhi": (n.hash >> 20) & 0xfffff,
+                                   "h0": n.hash & 0xfffff, "h1": (n.hash >> 20) & 0xfffff, "h2": (n.hash >> 40) & 0xffffff,
                                    "v": n.value.map(val).unwrap_or(0), "va": id(n.value_addr),
                                    "next": id(n.next), "prev": id(tl.prev), "parent": id(tl.parent),
                                    "left": id(tl.left), "right": id(tl.right), "red": tl.red as u8})
